@@ -480,7 +480,179 @@ func genCtx(router, app *pkg, fields []string) string {
 		}
 		b.WriteString(leanStr(s))
 	}
-	b.WriteString("]\n\nend Rivaas.Gen.Ctx\n")
+	b.WriteString("]\n\n")
+	b.WriteString(genPoolSites(router))
+	b.WriteString("end Rivaas.Gen.Ctx\n")
+	return b.String()
+}
+
+// genPoolSites lists every Get / Put on a package-level sync.Pool of package router with the function it occurs in,
+// the condition of the innermost enclosing `if`, where a Get's result ends up / what a Put hands back, and what
+// surrounds a Put (a reset() call on the same value before it, the value set to nil after it). The receiver and
+// locals in front of a field are printed as `_`.
+func genPoolSites(p *pkg) string {
+	pools := map[string]bool{}
+	for _, f := range p.files {
+		for _, d := range f.Decls {
+			gd, ok := d.(*ast.GenDecl)
+			if !ok || gd.Tok != token.VAR {
+				continue
+			}
+			for _, sp := range gd.Specs {
+				vs := sp.(*ast.ValueSpec)
+				for i, n := range vs.Names {
+					if i < len(vs.Values) {
+						if cl, ok := vs.Values[i].(*ast.CompositeLit); ok && src(cl.Type) == "sync.Pool" {
+							pools[n.Name] = true
+						}
+					}
+				}
+			}
+		}
+	}
+	canon := func(e ast.Node) string {
+		t := src(e)
+		// `<ident>.field…` -> `_.field…` for the leading identifier of a selector chain that is not a pool / package
+		var out []string
+		for _, w := range strings.Fields(t) {
+			if i := strings.Index(w, "."); i > 0 {
+				head := w[:i]
+				ok := true
+				for _, r := range head {
+					if !(r == '_' || r >= 'a' && r <= 'z' || r >= 'A' && r <= 'Z' || r >= '0' && r <= '9') {
+						ok = false
+					}
+				}
+				if ok && !pools[head] && head != "sync" {
+					w = "_" + w[i:]
+				}
+			}
+			out = append(out, w)
+		}
+		return strings.Join(out, " ")
+	}
+	type site struct{ pool, kind, fn, guard, what, before, after string }
+	var sites []site
+	var names []string
+	type fd struct {
+		name string
+		d    *ast.FuncDecl
+	}
+	var fns []fd
+	for n, d := range p.funcs {
+		fns = append(fns, fd{n, d})
+	}
+	for t, ms := range p.methods {
+		for n, d := range ms {
+			fns = append(fns, fd{t + "." + n, d})
+		}
+	}
+	sort.Slice(fns, func(i, j int) bool { return fns[i].name < fns[j].name })
+	for _, f := range fns {
+		// walk with the stack of enclosing nodes
+		var stack []ast.Node
+		ast.Inspect(f.d.Body, func(n ast.Node) bool {
+			if n == nil {
+				stack = stack[:len(stack)-1]
+				return true
+			}
+			stack = append(stack, n)
+			c, ok := n.(*ast.CallExpr)
+			if !ok {
+				return true
+			}
+			sel, ok := c.Fun.(*ast.SelectorExpr)
+			if !ok {
+				return true
+			}
+			id, ok := sel.X.(*ast.Ident)
+			if !ok || !pools[id.Name] || (sel.Sel.Name != "Get" && sel.Sel.Name != "Put") {
+				return true
+			}
+			st := site{pool: id.Name, kind: strings.ToLower(sel.Sel.Name), fn: f.name, guard: "-", what: "-", before: "-", after: "-"}
+			// innermost enclosing if + the statement list the call's statement sits in
+			var encl ast.Stmt
+			var block *ast.BlockStmt
+			for i := len(stack) - 1; i >= 0; i-- {
+				if is, ok := stack[i].(*ast.IfStmt); ok && st.guard == "-" {
+					inBody := false
+					for j := i + 1; j < len(stack); j++ {
+						if stack[j] == ast.Node(is.Body) {
+							inBody = true
+						}
+					}
+					if inBody {
+						st.guard = canon(is.Cond)
+					}
+				}
+				if bs, ok := stack[i].(*ast.BlockStmt); ok && block == nil {
+					block = bs
+					if i+1 < len(stack) {
+						encl, _ = stack[i+1].(ast.Stmt)
+					}
+				}
+			}
+			if st.kind == "put" && len(c.Args) == 1 {
+				st.what = canon(c.Args[0])
+				if _, ok := c.Args[0].(*ast.Ident); ok {
+					st.what = "_" // a parameter / local
+				}
+			}
+			if block != nil && encl != nil {
+				for k, s2 := range block.List {
+					if s2 != encl {
+						continue
+					}
+					if st.kind == "get" {
+						// the result (possibly through a checked type assertion into a local) ends up in: the
+						// first later assignment in this block whose right side is that local, or the assignment itself
+						local := ""
+						if as, ok := encl.(*ast.AssignStmt); ok {
+							if l0, ok := as.Lhs[0].(*ast.Ident); ok {
+								local = l0.Name
+							} else {
+								st.what = canon(as.Lhs[0])
+							}
+						}
+						if rs, ok := encl.(*ast.ReturnStmt); ok && len(rs.Results) > 0 {
+							st.what = "return"
+						}
+						for _, s3 := range block.List[k+1:] {
+							if as, ok := s3.(*ast.AssignStmt); ok && local != "" && len(as.Rhs) == 1 && isIdent(as.Rhs[0], local) {
+								st.what = canon(as.Lhs[0])
+							}
+							if rs, ok := s3.(*ast.ReturnStmt); ok && local != "" && len(rs.Results) == 1 && isIdent(rs.Results[0], local) && st.what == "-" {
+								st.what = "return"
+							}
+						}
+					} else {
+						if k > 0 {
+							st.before = canon(block.List[k-1])
+						}
+						if k+1 < len(block.List) {
+							st.after = canon(block.List[k+1])
+						}
+					}
+				}
+			}
+			sites = append(sites, st)
+			return true
+		})
+	}
+	for n := range pools {
+		names = append(names, n)
+	}
+	sort.Strings(names)
+	var b strings.Builder
+	b.WriteString("/-- package-level sync.Pool variables of package router -/\ndef pools : List String := " + oaStrList(names) + "\n\n")
+	b.WriteString("/-- every Get / Put on them: pool, get|put, enclosing function, condition of the innermost enclosing `if`, where the\n    result goes / what is handed back, statement before, statement after (Put only) -/\ndef poolSites : List (List String) := [")
+	for i, s := range sites {
+		if i > 0 {
+			b.WriteString(",")
+		}
+		b.WriteString("\n  " + oaStrList([]string{s.pool, s.kind, s.fn, s.guard, s.what, s.before, s.after}))
+	}
+	b.WriteString("]\n\n")
 	return b.String()
 }
 
